@@ -72,10 +72,28 @@ static void sort_case(int which, unsigned seed) {
     std::vector<int> ref = in; std::sort(ref.begin(), ref.end());
     TR.emit("{\"e\":\"SortBig\",\"n\":%d,\"sorted\":%d,\"perm\":%d}", n, std::is_sorted(v.begin(), v.end()) ? 1 : 0, ref == v ? 1 : 0);
 }
+// sort sweep: parallel_sort first tests in parallel whether the input is already sorted; that pre-test must look at EVERY adjacent pair.  For each size n the
+// input "sorted except one inversion at position p" is sorted for every p (natively, on this thread only - the defect class is input-dependent, not a race) and
+// the number of unsorted results is logged in one event.  Sizes around the 500-element serial cut-off and around chunk sizes the pre-test's parallel_for produces.
+static void sort_sweep(const std::vector<int>& sizes) {
+    tbb::task_arena solo(1, 1);
+    for (int n : sizes) { long bad = 0; int first = -1;
+        for (int p = 0; p + 1 < n; p++) { std::vector<int> v(n); for (int i = 0; i < n; i++) v[i] = i; std::swap(v[p], v[p + 1]);
+            solo.execute([&] { tbb::parallel_sort(v.begin(), v.end()); });
+            if (!std::is_sorted(v.begin(), v.end())) { ++bad; if (first < 0) first = p; } }
+        // descending order with std::greater, and many equal keys (key = i / 3)
+        for (int p = 0; p + 1 < n; p += 7) { std::vector<int> v(n); for (int i = 0; i < n; i++) v[i] = (n - i) / 3; std::swap(v[p], v[p + 1]);
+            solo.execute([&] { tbb::parallel_sort(v.begin(), v.end(), std::greater<int>()); });
+            if (!std::is_sorted(v.begin(), v.end(), std::greater<int>())) { ++bad; if (first < 0) first = p; } }
+        TR.emit("{\"e\":\"SortSweep\",\"n\":%d,\"bad\":%ld,\"firstbad\":%d}", n, bad, first); }
+}
 int main(int argc, char** argv) {
     if (argc < 5) return 2;
     TR.open(argv[1]); std::string mode = argv[2]; int nseeds = atoi(argv[3]); unsigned long seed0 = strtoul(argv[4], nullptr, 10);
     long paths = 0, steps = 0, stuck = 0; vh::Timer tm; static const int dens[8] = {1, 3, 10, 40, -1, -2, -3, -5};
+    if (mode == "sweep") { std::vector<int> sizes; for (int n = 498; n <= (nseeds > 1 ? 600 : 540); n++) sizes.push_back(n); for (int n : {777, 779, 782, 785, 1035, 1042, 1049, 2047, 2058}) sizes.push_back(n);
+        if (nseeds > 1) for (int n = 1020; n <= 1100; n++) sizes.push_back(n);
+        TR.begin_exec(); sort_sweep(sizes); TR.close(); printf("{\"paths\":%zu,\"steps\":0,\"stuck\":0,\"wall\":%.2f}\n", sizes.size(), tm.s()); return 0; }
     auto exec = [&](unsigned long seed, int den, const std::function<void()>& fn) { if (stuck >= 10) return; TR.begin_exec(); Result r = run_in_arena(3, seed, den, 30000000, fn, false); ++paths; steps += r.steps; if (r.rc) ++stuck; };
     int ns[] = {1, 2, 3, 7, 8, 16, 25}; int gs[] = {1, 2, 5};
     for (int s = 0; s < nseeds; s++) {
